@@ -106,30 +106,54 @@ unsigned long long verif_mc_k;		/* ghost byte index inside a block (pointwise st
 int g_pass;				/* the pass do_one_pass was called with */
 unsigned int g_end0;			/* info->end_transaction on entry */
 int g_geom_ok;				/* sane geometry and no fast commit: the range statement R applies */
-int g_live;				/* buffers obtained and not yet released */
-unsigned long g_bm_block;		/* last jbd2_journal_bmap: log offset asked, physical block answered */
-unsigned long long g_bm_phys;
-struct buffer_head *g_gbj_bh;		/* last getblk on the journal device: buffer, block number */
-unsigned long long g_gbj_blocknr;
-struct buffer_head *g_gbf_bh;		/* last getblk on the filesystem device: buffer, block number */
-unsigned long long g_gbf_blocknr;
-struct buffer_head *g_rd_bh;		/* last buffer read from the device, and byte verif_mc_k of what was read */
-unsigned char g_rd_byte;
-unsigned long long g_tr_blocknr;	/* last test_revoke: arguments, answer */
-unsigned int g_tr_seq;
-int g_tr_ret;
-const void *g_cs_buf;			/* last crc32c call over a whole block: buffer, seed */
-unsigned int g_cs_seed;
-unsigned int g_cs_out;			/* ... and its result */
-unsigned int g_cq_seed, g_cq_word, g_cq_out;	/* last crc32c call over 4 bytes (the sequence number): seed, the 4 bytes (raw), result */
-unsigned long long g_tag_off0;		/* offset of the tag of the current tag-loop iteration */
-int g_prev_last;			/* the tag of the previous iteration carried LAST_TAG */
-struct buffer_head *g_armed;		/* buffer the write monitor has just approved */
-struct buffer_head *g_dirtied;		/* buffer mark_buffer_dirty was called on */
-
-#define GHOSTS g_live, g_bm_block, g_bm_phys, g_gbj_bh, g_gbj_blocknr, g_gbf_bh, g_gbf_blocknr, g_rd_bh, g_rd_byte, \
-	g_tr_blocknr, g_tr_seq, g_tr_ret, g_cs_buf, g_cs_seed, g_cs_out, g_cq_seed, g_cq_word, g_cq_out, \
-	g_tag_off0, g_prev_last, g_armed, g_dirtied
+/* ghost state written inside the loops: ONE object, so that the loop frames stay small (every write in a cut loop is
+ * compared with every target of its assigns clause) */
+struct op_ghost {
+	int live;				/* buffers obtained and not yet released */
+	unsigned long bm_block;		/* last jbd2_journal_bmap: log offset asked, physical block answered */
+	unsigned long long bm_phys;
+	struct buffer_head *gbj_bh;		/* last getblk on the journal device: buffer, block number */
+	unsigned long long gbj_blocknr;
+	struct buffer_head *gbf_bh;		/* last getblk on the filesystem device: buffer, block number */
+	unsigned long long gbf_blocknr;
+	struct buffer_head *rd_bh;		/* last buffer read from the device, and byte verif_mc_k of what was read */
+	unsigned char rd_byte;
+	unsigned long long tr_blocknr;	/* last test_revoke: arguments, answer */
+	unsigned int tr_seq;
+	int tr_ret;
+	const void *cs_buf;			/* last crc32c call over a whole block: buffer, seed */
+	unsigned int cs_seed;
+	unsigned int cs_out;			/* ... and its result */
+	unsigned int cq_seed, cq_word, cq_out;	/* last crc32c call over 4 bytes (the sequence number): seed, the 4 bytes (raw), result */
+	unsigned long long tag_off0;		/* offset of the tag of the current tag-loop iteration */
+	int prev_last;			/* the tag of the previous iteration carried LAST_TAG */
+	struct buffer_head *armed;		/* buffer the write monitor has just approved */
+	struct buffer_head *dirtied;		/* buffer mark_buffer_dirty was called on */
+};
+struct op_ghost G;
+#define g_live G.live
+#define g_bm_block G.bm_block
+#define g_bm_phys G.bm_phys
+#define g_gbj_bh G.gbj_bh
+#define g_gbj_blocknr G.gbj_blocknr
+#define g_gbf_bh G.gbf_bh
+#define g_gbf_blocknr G.gbf_blocknr
+#define g_rd_bh G.rd_bh
+#define g_rd_byte G.rd_byte
+#define g_tr_blocknr G.tr_blocknr
+#define g_tr_seq G.tr_seq
+#define g_tr_ret G.tr_ret
+#define g_cs_buf G.cs_buf
+#define g_cs_seed G.cs_seed
+#define g_cs_out G.cs_out
+#define g_cq_seed G.cq_seed
+#define g_cq_word G.cq_word
+#define g_cq_out G.cq_out
+#define g_tag_off0 G.tag_off0
+#define g_prev_last G.prev_last
+#define g_armed G.armed
+#define g_dirtied G.dirtied
+#define GHOSTS G
 
 static journal_t J;			/* the journal of the harness */
 
